@@ -113,7 +113,7 @@ def toy_operators(rng, mix, adapt):
             ops.append({"id": "op.dirichlet_view", "type": "DirichletOperator", "parameters": "kp.freqs",
                         "weight": w(), "scaler": round(rng.uniform(20.0, 200.0), 1),
                         "target_acceptance_probability": 0.24, "disable_adaptation": da})
-        elif k in ("hmc", "hmc_adaptive", "hmc_dual", "hmc_mass", "hmc_mass_dense"):
+        elif k in ("hmc", "hmc_adaptive", "hmc_rate", "hmc_dual", "hmc_mass", "hmc_mass_dense"):
             op = {"id": "op." + k, "type": "HMCOperator", "joint": "joint", "parameters": ["b", "z"],
                   "weight": w(), "target_acceptance_probability": 0.8, "disable_adaptation": da,
                   "integrator": {"id": k + ".leapfrog", "type": "LeapfrogIntegrator",
@@ -131,6 +131,12 @@ def toy_operators(rng, mix, adapt):
                 op["adaptors"].append({"id": k + ".adaptor", "type": "AdaptiveStepSize",
                                        "integrator": k + ".leapfrog",
                                        "target_acceptance_probability": 0.8})
+            if k == "hmc_rate" and adapt:
+                # step size driven by the operator's running acceptance RATE (accepted / own calls)
+                op["integrator"]["step_size"] = round(rng.uniform(0.02, 0.08), 3)
+                op["adaptors"].append({"id": k + ".adaptor", "type": "AdaptiveStepSize",
+                                       "integrator": k + ".leapfrog", "use_acceptance_rate": True,
+                                       "target_acceptance_probability": 0.6})
             if k == "hmc_dual" and adapt:
                 op["adaptors"].append({"id": k + ".adaptor", "type": "DualAveragingStepSize",
                                        "integrator": k + ".leapfrog"})
@@ -296,6 +302,7 @@ def plan(tier, seed):
     add("toy", ["scaler", "scaler_rev", "sliding", "dirichlet", "hmc"], False, n(120, 800), 3)
     add("toy", ["sliding", "hmc_adaptive", "dirichlet"], True, n(120, 800), 1)
     add("toy", ["scaler", "hmc_dual"], True, n(120, 800), 2)
+    add("toy", ["sliding", "hmc_rate", "scaler"], True, n(150, 800), 1)
     add("toy", ["scaler_transformed", "sliding"], True, n(100, 400), 1)
     add("toy", ["scaler_cat", "sliding"], True, n(100, 400), 1)
     add("toy", ["hmc_mass", "scaler"], True, n(80, 400), 1)
@@ -310,7 +317,7 @@ def plan(tier, seed):
     add("phylo-cli", ["sliding_cli", "block"], True, n(120, 600), 1)
     if not q:
         for _ in range(4):
-            mix = rng.sample(["scaler", "scaler_rev", "sliding", "dirichlet", "hmc", "hmc_adaptive", "hmc_dual"],
+            mix = rng.sample(["scaler", "scaler_rev", "sliding", "dirichlet", "hmc", "hmc_adaptive", "hmc_dual", "hmc_rate"],
                              rng.randint(2, 4))
             add("toy", mix, rng.random() < 0.7, 600, rng.choice([1, 2, 7]))
         for _ in range(2):
@@ -422,6 +429,7 @@ class Recorder:
                     a[k[1:]] = float(getattr(ad, k))
             if hasattr(ad, "_acceptance_rate"):
                 a["use_rate"] = bool(ad._acceptance_rate)
+                a["accepted"] = int(ad._accepted)
             ads.append(a)
         st["adaptors"] = ads
         return st
@@ -927,7 +935,29 @@ def check_run(ri, run, fresh):
             tgt = sb["adaptors"][0].get("target", info["target"]) if sb["adaptors"] else info["target"]
             s0, s1 = spread(kind, sb["field"]), spread(kind, sa["field"])
             d["spread"] = (s0, s1)
-            if not dual and math.isfinite(c["ap"]):
+            rate = bool(sb["adaptors"]) and sb["adaptors"][0].get("use_rate")
+            if rate:
+                # the adaptor is driven by the operator's own acceptance rate: accepted moves of THIS operator over
+                # the number of times THIS operator was used (both counted by the adaptor, after this move)
+                a1 = sa["adaptors"][0]
+                r1 = a1["accepted"] / a1["call_counter"] if a1["call_counter"] else float("nan")
+                d["rate"] = r1
+                if (a1["accepted"], a1["call_counter"]) != (sb["adaptors"][0]["accepted"] + (1 if acc else 0),
+                                                            sb["adaptors"][0]["call_counter"] + 1):
+                    add(f"C15:adaptor-counters:{kind}", f"iteration {k + 1}: the adaptor's counters went "
+                        f"{sb['adaptors'][0]['accepted']}/{sb['adaptors'][0]['call_counter']} -> {a1['accepted']}/"
+                        f"{a1['call_counter']} after a move that was {c['decision']}ed", "tuning", k)
+                if r1 > tgt and s1 < s0 * (1 - 1e-12):
+                    add(f"C15:tuning-direction:{kind}:acceptance-rate",
+                        f"iteration {k + 1} ({c['op_id']}): the operator's acceptance rate {a1['accepted']}/"
+                        f"{a1['call_counter']} = {r1:.4g} is above the target {tgt} but the step size went "
+                        f"{sb['field']!r} -> {sa['field']!r} (more timid)", "tuning", k)
+                if r1 < tgt and s1 > s0 * (1 + 1e-12):
+                    add(f"C15:tuning-direction:{kind}:acceptance-rate",
+                        f"iteration {k + 1} ({c['op_id']}): the operator's acceptance rate {a1['accepted']}/"
+                        f"{a1['call_counter']} = {r1:.4g} is below the target {tgt} but the step size went "
+                        f"{sb['field']!r} -> {sa['field']!r} (bolder)", "tuning", k)
+            elif not dual and math.isfinite(c["ap"]):
                 if c["ap"] > tgt and s1 < s0 * (1 - 1e-12):
                     add(f"C15:tuning-direction:{kind}",
                         f"iteration {k + 1} ({c['op_id']}): acceptance probability {c['ap']:.4g} above target {tgt} "
